@@ -37,6 +37,17 @@ type World struct {
 	served  bool
 	SrvErr  error
 	SrvDone bool
+	// the providers the server uses (for state keys)
+	Topics   *topics.MemTopics
+	Sessions *sessions.MemProvider
+}
+
+// ImplKey renders the implementation-side state the model cannot see: the
+// session store, the subscription tree and the retained tree.  De-duplicating
+// histories on the model state alone would merge a history that left stale
+// entries behind with one that did not.
+func (w *World) ImplKey() string {
+	return w.Sessions.VerifDump() + "#" + w.Topics.VerifDump()
 }
 
 const addr = "broker:1883"
@@ -49,8 +60,9 @@ func NewWorld(cfg Config) *World {
 	topics.VerifResetProviders()
 	topics.Unregister("vt")
 	sessions.Unregister("vs")
-	topics.Register("vt", topics.NewMemProvider())
-	sessions.Register("vs", sessions.NewMemProvider())
+	tp, sp := topics.NewMemProvider(), sessions.NewMemProvider()
+	topics.Register("vt", tp)
+	sessions.Register("vs", sp)
 	if cfg.MaxQosSet {
 		topics.MaxQosAllowed = cfg.MaxQos
 	} else {
@@ -59,7 +71,7 @@ func NewWorld(cfg Config) *World {
 	if cfg.BufferSize == 0 {
 		cfg.BufferSize = 16384
 	}
-	w := &World{Cfg: cfg, Addr: addr}
+	w := &World{Cfg: cfg, Addr: addr, Topics: tp, Sessions: sp}
 	if cfg.NoServer {
 		return w
 	}
@@ -96,6 +108,7 @@ type RawClient struct {
 	Dead    bool   // we closed it
 	pendRel map[uint16]bool
 	SentAck int
+	OnSend  func() // told about every transmission (keep-alive model)
 }
 
 // Dial opens a new connection.
@@ -118,6 +131,9 @@ func (c *RawClient) Send(p *refcodec.Packet) error {
 func (c *RawClient) SendRaw(b []byte) error {
 	if c.Dead {
 		return fmt.Errorf("closed")
+	}
+	if c.OnSend != nil {
+		c.OnSend()
 	}
 	_, err := c.Conn.Write(b)
 	return err
